@@ -809,6 +809,26 @@ pub fn ctors(out: &str) {
             }
         }
     }
+    // the from-constructors `Dual::try_new_from` / `Dual2::try_new_from` (what Python's `vars_from` calls): the other number's
+    // list, the same list, a permutation, a subset, new names - with gradients of every length 0..3: an error or a value, never an abort
+    {
+        let other1 = Dual::new(1.0, vec!["x0".to_string(), "x1".to_string()]);
+        let other2 = Dual2::new(1.0, vec!["x0".to_string(), "x1".to_string()]);
+        for (vi, vars) in [vec!["x0", "x1"], vec!["x1", "x0"], vec!["x0"], vec!["x1", "z"], vec![], vec!["x0", "x0"]].iter().enumerate() {
+            let vs: Vec<String> = vars.iter().map(|x| x.to_string()).collect();
+            let distinct = { let mut d = vs.clone(); d.sort(); d.dedup(); d.len() };
+            for nd in 0..=3usize {
+                let res = guard(|| Dual::try_new_from(&other1, 2.0, vs.clone(), vec![0.5; nd]).map(|_| ()).map_err(|_| ()));
+                o.emit(&json!({"key": format!("ctor/Dual::try_new_from/{}/{}", vi, nd), "op":"ctor", "fn":"Dual::try_new", "nvars": distinct, "nd": nd, "n2": 0,
+                               "o": match &res { Outcome::Ok(Ok(_)) => "ok", Outcome::Ok(Err(_)) => "err", Outcome::Panic(_) => "panic" }}));
+                for n2 in [0usize, distinct * distinct, 1, 3] {
+                    let res = guard(|| Dual2::try_new_from(&other2, 2.0, vs.clone(), vec![0.5; nd], vec![0.25; n2]).map(|_| ()).map_err(|_| ()));
+                    o.emit(&json!({"key": format!("ctor/Dual2::try_new_from/{}/{}/{}", vi, nd, n2), "op":"ctor", "fn":"Dual2::try_new", "nvars": distinct, "nd": nd, "n2": n2,
+                                   "o": match &res { Outcome::Ok(Ok(_)) => "ok", Outcome::Ok(Err(_)) => "err", Outcome::Panic(_) => "panic" }}));
+                }
+            }
+        }
+    }
     // `PPSpline::new` asserts a non-decreasing knot sequence: a decrease at ANY position (the last pair included) is refused
     for (pi, t) in [vec![0.0, 0.0, 0.0, 1.0, 2.0, 3.0, 3.0, 3.0], vec![0.0, 0.0, 0.0, 1.0, 2.0, 3.0, 3.0, 2.5], vec![0.0, 0.0, 0.0, 2.0, 1.0, 3.0, 3.0, 3.0],
                     vec![0.5, 0.0, 0.0, 1.0, 2.0, 3.0, 3.0, 3.0], vec![0.0, 0.0, 0.0, 1.0, 2.0, 3.0, 2.0, 3.0], vec![0.0, 1.0], vec![1.0, 0.0]].iter().enumerate() {
